@@ -102,8 +102,9 @@ struct UnusedTypeParam {
     name: TypeName,
     /// Position of the type parameter name (for the warning).
     name_position: Position,
-    /// Position to remove (may include comma and the `<>` brackets).
-    removal_position: Position,
+    /// Position to remove (may include comma and the `<>` brackets),
+    /// if we can work it out.
+    removal_position: Option<Position>,
 }
 
 impl UnusedVariableVisitor {
@@ -181,11 +182,14 @@ impl UnusedVariableVisitor {
                     msgtext!(" is unused."),
                 ]),
                 position: unused_type_param.name_position.clone(),
-                fixes: vec![Autofix {
-                    description: "Remove this type parameter".to_owned(),
-                    position: unused_type_param.removal_position.clone(),
-                    new_text: String::new(),
-                }],
+                fixes: match &unused_type_param.removal_position {
+                    Some(removal_position) => vec![Autofix {
+                        description: "Remove this type parameter".to_owned(),
+                        position: removal_position.clone(),
+                        new_text: String::new(),
+                    }],
+                    None => vec![],
+                },
             });
         }
 
@@ -334,23 +338,28 @@ impl UnusedVariableVisitor {
                 // Remove entire <...> section. The `<` is right before the first
                 // type param, and `>` is right after the last one (before open paren).
                 let first_tp = &params[0].0;
-                let last_tp = &params[params.len() - 1].0;
-                Position {
-                    // Start at `<` which is one char before the first type param
-                    start_offset: first_tp.position.start_offset - 1,
-                    // End at `>` which is right before the open paren
-                    end_offset: open_paren.start_offset,
-                    line_number: first_tp.position.line_number,
-                    end_line_number: last_tp.position.end_line_number,
-                    column: first_tp.position.column.saturating_sub(1),
-                    end_column: open_paren.column,
-                    path: Rc::clone(&tp.position.path),
-                    vfs_path: tp.position.vfs_path.clone(),
+                if first_tp.position.column == 0 {
+                    // The `<` is on a previous line, so we don't
+                    // know where it is.
+                    None
+                } else {
+                    Some(Position {
+                        // Start at `<` which is one char before the first type param
+                        start_offset: first_tp.position.start_offset - 1,
+                        // End at `>` which is right before the open paren
+                        end_offset: open_paren.start_offset,
+                        line_number: first_tp.position.line_number,
+                        end_line_number: open_paren.line_number,
+                        column: first_tp.position.column - 1,
+                        end_column: open_paren.column,
+                        path: Rc::clone(&tp.position.path),
+                        vfs_path: tp.position.vfs_path.clone(),
+                    })
                 }
             } else if idx == 0 {
                 // First param but not all unused: remove "T, " (param and trailing comma+space)
                 let next_tp = &params[idx + 1].0;
-                Position {
+                Some(Position {
                     start_offset: tp.position.start_offset,
                     end_offset: next_tp.position.start_offset,
                     line_number: tp.position.line_number,
@@ -359,11 +368,11 @@ impl UnusedVariableVisitor {
                     end_column: next_tp.position.column,
                     path: Rc::clone(&tp.position.path),
                     vfs_path: tp.position.vfs_path.clone(),
-                }
+                })
             } else {
                 // Not first param: remove ", T" (leading comma+space and param)
                 let prev_tp = &params[idx - 1].0;
-                Position {
+                Some(Position {
                     start_offset: prev_tp.position.end_offset,
                     end_offset: tp.position.end_offset,
                     line_number: prev_tp.position.end_line_number,
@@ -372,7 +381,7 @@ impl UnusedVariableVisitor {
                     end_column: tp.position.end_column,
                     path: Rc::clone(&tp.position.path),
                     vfs_path: tp.position.vfs_path.clone(),
-                }
+                })
             };
 
             self.unused_type_params.push(UnusedTypeParam {
